@@ -57,9 +57,9 @@ pub enum Auth {
 
 #[derive(Debug, Clone, PartialEq, Eq, Hash, Serialize, Deserialize)]
 pub enum Op {
-    Send { id: u8, class: u8, seal: u8, dest: u8, payload: u8 },
+    Send { id: u8, class: u8, seal: u8, dest: u8, payload: u16 },
     /// send immediately followed by configure_timeout (the documented use)
-    SendConfigured { id: u8, seal: u8, dest: u8, payload: u8, rto_ms: u32, retransmits: u8, last_ms: u32 },
+    SendConfigured { id: u8, seal: u8, dest: u8, payload: u16, rto_ms: u32, retransmits: u8, last_ms: u32 },
     Advance(Adv),
     Poll,
     Drain,
@@ -92,8 +92,9 @@ pub enum Op {
 pub struct History {
     pub tcp: bool,
     pub ops: Vec<Op>,
-    /// 0: the agent is built without a remote address; k: with remote_addr(peer(k-1)). The remote
-    /// address is informational: it has no bearing on where transmissions go.
+    /// low nibble 0: the agent is built without a remote address; k: with remote_addr(peer(k-1)). The
+    /// remote address is informational: it has no bearing on where transmissions go. High nibble:
+    /// which local address the agent is built with (`local_addr_of`).
     #[serde(default)]
     pub remote: u8,
 }
@@ -124,9 +125,21 @@ pub fn local_addr() -> SocketAddr {
     "10.0.0.1:3478".parse().unwrap()
 }
 
+/// the agent's own address as selected by the high nibble of `History::remote`: IPv4, global IPv6,
+/// link-local IPv6 on a zone (scope id 5), IPv4-mapped IPv6
+pub fn local_addr_of(remote: u8) -> SocketAddr {
+    match (remote >> 4) % 4 {
+        0 => local_addr(),
+        1 => "[2001:db8::1]:3478".parse().unwrap(),
+        2 => SocketAddr::V6(std::net::SocketAddrV6::new("fe80::1".parse().unwrap(), 3478, 0, 5)),
+        _ => "[::ffff:10.0.0.1]:3478".parse().unwrap(),
+    }
+}
+
 /// peers 0..=2 are unrelated hosts; 3..=5 are twins of them as far as a lossy comparison goes
-/// (IPv4-mapped spelling of peer 0, peer 2 on another scope, peer 0 on the next port)
-pub const N_PEERS: u8 = 6;
+/// (IPv4-mapped spelling of peer 0, peer 2 on another scope, peer 0 on the next port); 6 and 7 are a
+/// link-local IPv6 host named without a zone and on zone 5
+pub const N_PEERS: u8 = 8;
 
 pub fn peer(i: u8) -> SocketAddr {
     match i % N_PEERS {
@@ -135,7 +148,9 @@ pub fn peer(i: u8) -> SocketAddr {
         2 => "[2001:db8::7]:3478".parse().unwrap(),
         3 => "[::ffff:192.0.2.1]:3478".parse().unwrap(),
         4 => SocketAddr::V6(std::net::SocketAddrV6::new("2001:db8::7".parse().unwrap(), 3478, 0, 3)),
-        _ => "192.0.2.1:3479".parse().unwrap(),
+        5 => "192.0.2.1:3479".parse().unwrap(),
+        6 => "[fe80::2]:3478".parse().unwrap(),
+        _ => SocketAddr::V6(std::net::SocketAddrV6::new("fe80::2".parse().unwrap(), 3478, 0, 5)),
     }
 }
 
@@ -341,7 +356,10 @@ pub struct BuiltRequest {
 
 /// Build the message for a Send op through the library's builder and hand both the builder and
 /// its serialisation (captured before the send) to `f`.
-fn with_request<R>(id: u128, class: u8, seal: u8, payload: u8, f: impl FnOnce(MessageBuilder<'_>, Vec<u8>) -> R) -> R {
+fn with_request<R>(id: u128, class: u8, seal: u8, payload: u16, f: impl FnOnce(MessageBuilder<'_>, Vec<u8>) -> R) -> R {
+    // high byte: a request with many attributes (bit 15 set: the count in bits 8..14)
+    let many = if payload & 0x8000 != 0 { ((payload >> 8) & 0x3f) as usize } else { 0 };
+    let payload = payload as u8;
     let software = Software::new(&format!("vp-{}", payload)).unwrap();
     let prio = Priority::new(0x6e00_0000 | payload as u32);
     let user = Username::new(&"u".repeat(payload as usize % 7)).unwrap();
@@ -359,6 +377,10 @@ fn with_request<R>(id: u128, class: u8, seal: u8, payload: u8, f: impl FnOnce(Me
     let raw_val = vec![payload; payload as usize % 9];
     if payload >= 128 {
         b.add_raw_attribute(RawAttribute::new(AttributeType::new(0xC057), &raw_val)).unwrap();
+    }
+    let many_vals: Vec<Vec<u8>> = (0..many).map(|i| vec![i as u8 ^ payload; (i + payload as usize) % 6]).collect();
+    for (i, v) in many_vals.iter().enumerate() {
+        b.add_raw_attribute(RawAttribute::new(AttributeType::new(0xC100 + i as u16 * 3), v)).unwrap();
     }
     let lc = local_seal_creds().to_lib();
     match seal % 4 {
@@ -507,11 +529,11 @@ pub struct Interp<'h> {
 }
 
 pub fn build_agent(transport: TransportType, remote: u8) -> StunAgent {
-    let b = StunAgent::builder(transport, local_addr());
-    if remote == 0 {
+    let b = StunAgent::builder(transport, local_addr_of(remote));
+    if remote & 0x0f == 0 {
         b.build()
     } else {
-        b.remote_addr(peer(remote - 1)).build()
+        b.remote_addr(peer((remote & 0x0f) - 1)).build()
     }
 }
 
@@ -598,7 +620,7 @@ impl<'h> Interp<'h> {
                 format!("{}: transmitted bytes {} differ from the serialisation of the message handed to send {}", what, hex_short(tr.data()), hex_short(bytes)),
             ));
         }
-        if tr.from != local_addr() || tr.to != dest || tr.transport != self.transport {
+        if tr.from != local_addr_of(self.h.remote) || tr.to != dest || tr.transport != self.transport {
             return Err(self.d(
                 "C18",
                 "c18-addressing",
@@ -609,7 +631,7 @@ impl<'h> Interp<'h> {
                     tr.from,
                     tr.to,
                     self.transport,
-                    local_addr(),
+                    local_addr_of(self.h.remote),
                     dest
                 ),
             ));
@@ -661,6 +683,7 @@ impl<'h> Interp<'h> {
         let mut addrs: Vec<SocketAddr> = (0..N_PEERS).map(peer).collect();
         addrs.push(never_used_peer());
         addrs.push(local_addr());
+        addrs.push(local_addr_of(self.h.remote));
         // the same IPv6 address and port with another scope id / flow label, and the neighbouring
         // port of an IPv4 peer: distinct socket addresses from which nothing is ever received
         if let SocketAddr::V6(v6) = peer(2) {
@@ -703,7 +726,7 @@ impl<'h> Interp<'h> {
         Ok(())
     }
 
-    fn do_send(&mut self, id: u8, class: u8, seal: u8, dest: u8, payload: u8, cfg: Option<(u32, u8, u32)>) -> Result<(), Disc> {
+    fn do_send(&mut self, id: u8, class: u8, seal: u8, dest: u8, payload: u16, cfg: Option<(u32, u8, u32)>) -> Result<(), Disc> {
         let tid = pool_id(id);
         let dest = peer(dest);
         let now = self.now;
@@ -1689,13 +1712,34 @@ fn auth_strategy() -> BoxedStrategy<Auth> {
     .boxed()
 }
 
-fn cfg_strategy() -> BoxedStrategy<(u32, u8, u32)> {
-    (
+/// request contents: mostly one of 256 small shapes, sometimes with 1..63 further attributes
+pub fn payload_strategy() -> BoxedStrategy<u16> {
+    prop_oneof![
+        12 => any::<u8>().prop_map(|p| p as u16),
+        2 => (any::<u8>(), 1u16..64).prop_map(|(p, n)| 0x8000 | (n << 8) | p as u16),
+        1 => (any::<u8>(), proptest::sample::select(vec![7u16, 8, 9, 15, 16, 17, 19, 20, 21, 31, 32, 33, 63])).prop_map(|(p, n)| 0x8000 | (n << 8) | p as u16),
+    ]
+    .boxed()
+}
+
+pub fn cfg_strategy() -> BoxedStrategy<(u32, u8, u32)> {
+    // independent components (each with the documented default among its boundary values), and whole
+    // well-known schedules: the RFC 8489 defaults the agent starts with ("configure back to the
+    // defaults"), the RFC 5389 numbers, the TCP-style single long wait
+    let parts = (
         prop_oneof![3 => 1u32..=2000, 1 => 1u32..=60_000, 1 => Just(500u32), 1 => Just(1u32), 1 => Just(60_000u32)],
-        prop_oneof![4 => 0u8..=4, 2 => 0u8..=8, 1 => Just(8u8)],
-        prop_oneof![3 => 0u32..=3000, 1 => 0u32..=60_000, 1 => Just(0u32), 1 => Just(60_000u32)],
-    )
-        .boxed()
+        prop_oneof![4 => 0u8..=4, 2 => 0u8..=8, 1 => Just(8u8), 1 => Just(6u8), 1 => Just(7u8)],
+        prop_oneof![3 => 0u32..=3000, 1 => 0u32..=60_000, 1 => Just(0u32), 1 => Just(60_000u32), 1 => Just(8_000u32)],
+    );
+    prop_oneof![
+        10 => parts,
+        2 => Just((500u32, 6u8, 8_000u32)),
+        1 => Just((500u32, 7u8, 8_000u32)),
+        1 => Just((500u32, 6u8, 8_001u32)),
+        1 => Just((500u32, 7u8, 16_000u32)),
+        1 => Just((500u32, 0u8, 39_500u32)),
+    ]
+    .boxed()
 }
 
 pub fn op_strategy(p: Profile) -> BoxedStrategy<Op> {
@@ -1705,9 +1749,9 @@ pub fn op_strategy(p: Profile) -> BoxedStrategy<Op> {
         Profile::Auth => prop_oneof![1 => Just(0u8), 5 => 1u8..4].boxed(),
         _ => prop_oneof![3 => Just(0u8), 2 => 1u8..4].boxed(),
     };
-    let send = (id(), prop_oneof![8 => Just(0u8), 1 => 1u8..4], seal(), addr(), any::<u8>())
+    let send = (id(), prop_oneof![8 => Just(0u8), 1 => 1u8..4], seal(), addr(), payload_strategy())
         .prop_map(|(id, class, seal, dest, payload)| Op::Send { id, class, seal, dest, payload });
-    let send_cfg = (id(), seal(), addr(), any::<u8>(), cfg_strategy()).prop_map(|(id, seal, dest, payload, (rto_ms, retransmits, last_ms))| Op::SendConfigured {
+    let send_cfg = (id(), seal(), addr(), payload_strategy(), cfg_strategy()).prop_map(|(id, seal, dest, payload, (rto_ms, retransmits, last_ms))| Op::SendConfigured {
         id,
         seal,
         dest,
@@ -1765,8 +1809,8 @@ pub fn op_strategy(p: Profile) -> BoxedStrategy<Op> {
 }
 
 pub fn history_strategy(p: Profile, max_ops: usize) -> BoxedStrategy<History> {
-    (prop_oneof![3 => Just(false), 1 => Just(true)], vec(op_strategy(p), 0..=max_ops), prop_oneof![3 => Just(0u8), 1 => 1u8..=N_PEERS])
-        .prop_map(|(tcp, ops, remote)| History { tcp, ops, remote })
+    (prop_oneof![3 => Just(false), 1 => Just(true)], vec(op_strategy(p), 0..=max_ops), prop_oneof![3 => Just(0u8), 1 => 1u8..=N_PEERS], prop_oneof![5 => Just(0u8), 1 => 1u8..4])
+        .prop_map(|(tcp, ops, remote, local)| History { tcp, ops, remote: remote | (local << 4) })
         .boxed()
 }
 
@@ -1809,7 +1853,7 @@ pub fn record_run_clock(
         // unrelated agents are created and operated in between
         if other_agents > 0 && step % 3 == 0 && others.len() < other_agents as usize {
             let mut o = StunAgent::builder(transport, "10.9.9.9:1".parse().unwrap()).build();
-            with_request(pool_id(0), 0, 0, step as u8, |b, _| {
+            with_request(pool_id(0), 0, 0, step as u8 as u16, |b, _| {
                 let _ = o.send(b, peer(1), origin + Duration::from_millis(now + 17));
             });
             others.push(o);
